@@ -89,6 +89,12 @@ def classify(sql, s, e, fresh, kind, tree=None):
         return "C05:index-using"
     if re.search(r"\bfetch\b[^;]*\binto\b[^;]*$", before):
         return "C05:fetch-into"
+    if re.search(r"#>>?[^\n]*$", before):
+        # the JSON path operators #> and #>> start with the comment character: the rest of the line is skipped as a comment
+        return "C05:hash-operator-read-as-comment"
+    if re.search(r"(\]|::\s*\w+)\s*(\.\s*\w*|\[[^\]]*)$", before) or re.search(r"(\]|::\s*\w+)\s*\.\s*\w+\s*\[[^\]]*$", before):
+        # a postfix accessor written after a postfix operator of a tighter level: the reducer stops and the tail is dropped
+        return "C05:postfix-after-postfix"
     mb = list(re.finditer(r"\bbetween\b", before))
     if mb and not re.search(r"\band\b", before[mb[-1].end():] + " " + after.split(")")[0]):
         # BETWEEN whose AND is missing: the reducer keeps the first operand only
@@ -157,10 +163,12 @@ def run(ctx):
         stmts = [s for i, s in enumerate(stmts) if i % 4 == ctx.seed % 4]
     g = gens.G(rnd, null_rate=0.02, max_depth=2)
     g.paren_query = True
+    g.ordered_set = True
     gen = [g.statement() for _ in range(ctx.n(400, 6000))]
     stmts += [("common_parser", x) for x in gen if len(x) < 260][:ctx.n(110, 2500)]
     # witnesses of listed findings that the generators do not produce
-    stmts += [("common_parser", "select a from t where c1 between 7 or c2"), ("common_parser", "select c1 not between 3 from t")]
+    stmts += [("common_parser", "select a from t where c1 between 7 or c2"), ("common_parser", "select c1 not between 3 from t"),
+              ("common_parser", "select c1[1].q2[3] from t"), ("common_parser", "select c1::int[2] from t"), ("common_parser", "select c1 #> c2 from t9")]
     for entry, sql in stmts:
         f = impl.ENTRY[entry]
         st, _ = impl.outcome(f, sql)
